@@ -14,8 +14,8 @@ SCALE = Fraction(1, 4)
 GRID = Fraction(1, 8)
 VARS = ["x", "y", "z"]
 
-DENSE_OFF = {"arith", "cmp", "bool", "iffxor", "not", "past_c", "ufuture", "bpast", "bfuture", "since", "until", "bsince", "buntil"}
-DENSE_ON = {"arith", "cmp", "bool", "iffxor", "not", "past_c", "bpast", "since", "bsince"}
+DENSE_OFF = {"arith", "fn", "cmp", "bool", "iffxor", "not", "past_c", "ufuture", "bpast", "bfuture", "since", "until", "bsince", "buntil"}
+DENSE_ON = {"arith", "fn", "cmp", "bool", "iffxor", "not", "past_c", "bpast", "since", "bsince"}
 
 
 class DGen(F.Gen):
@@ -243,6 +243,65 @@ def compare_offline(ctx, f, sig, stream, ctxname="C04"):
     if any(v not in (common.INF, -common.INF) for v in vs) or len(set(vs)) > 1:
         ctx.nontrivial.add((text, tuple((v, tuple(sig[v])) for v in sorted(sig))))
     return None
+
+
+def compare_offline_batch(ctx, cases):
+    """cases: dicts with f, sig, stream.  The same comparison as compare_offline with the model queried in two driver calls for
+    all cases.  Yields (case, Violation | None)."""
+    work = []
+    for c in cases:
+        f, sig = c["f"], c["sig"]
+        text, out = eval_offline(f, sig)
+        rep = {"monitor": "offc", "spec": text, "formula": F.to_proto(f), "signals": {v: [[str(t), x] for t, x in sig[v]] for v in sig},
+               "impl": out}
+        work.append((c, text, out, rep))
+    doms = model_query([(c["f"], c["sig"], []) for c, _, _, _ in work])
+    pend, results = [], {}
+    for k, ((c, text, out, rep), (_, dom, end)) in enumerate(zip(work, doms)):
+        if out[0] != "ok":
+            results[k] = Violation("dense offline evaluate() raised %r: %s" % (out[1:], text), rep, stream=c["stream"])
+            continue
+        res = out[1]
+        times = [Fraction(p[0]) for p in res]
+        if any(b < a for a, b in zip(times, times[1:])):
+            results[k] = Violation("dense offline output time stamps decrease: %r: %s" % ([float(t) for t in times], text), rep,
+                                   stream=c["stream"])
+            continue
+        qs = query_times(c["sig"], c["f"], [t for t in times if t != float("inf")], dom, end)
+        pend.append((k, qs, dom, end))
+    vals_all = model_query([(work[k][0]["f"], work[k][0]["sig"], qs) for k, qs, _, _ in pend])
+    for (k, qs, dom, end), (vals, _, _) in zip(pend, vals_all):
+        c, text, out, rep = work[k]
+        res = out[1]
+        rep.update({"domain": [str(dom), str(end)], "model_at": [[str(q), v] for q, v in zip(qs, vals)]})
+        samples = [(Fraction(p[0]), p[1]) for p in res]
+        if not res or Fraction(res[0][0]) != dom:
+            results[k] = Violation("dense offline output starts at %r, the common input domain starts at %s: %s"
+                                   % (res[0][0] if res else None, dom, text), rep, stream=c["stream"])
+            continue
+        verdict = None
+        for q, mv in zip(qs, vals):
+            iv = step_value(samples, q)
+            if mv is None:
+                raise common.HarnessError("model undefined inside the domain at %s for %s" % (q, text))
+            if mv != mv or (iv is not None and iv != iv):
+                ctx.skipped_undef += 1
+                verdict = "undef"
+                break
+            if iv is None or not common.num_eq(iv, mv):
+                verdict = Violation("dense offline value at t=%s is %r, the dense semantics gives %r: %s" % (q, iv, mv, text), rep,
+                                    stream=c["stream"])
+                break
+        if isinstance(verdict, Violation):
+            results[k] = verdict
+            continue
+        if verdict is None:
+            vs = [step_value(samples, q) for q in qs]
+            if any(v not in (common.INF, -common.INF) for v in vs) or len(set(vs)) > 1:
+                ctx.nontrivial.add((text, tuple((v, tuple(c["sig"][v])) for v in sorted(c["sig"]))))
+        results[k] = None
+    for k, (c, _, _, _) in enumerate(work):
+        yield c, results.get(k)
 
 
 # ======================================================================================
@@ -631,24 +690,61 @@ def replay_wf(ctx, obj):
 
 # -------------------------------------------------------------------------------- C06
 def ia_stream(ctx):
+    """Batched (three driver calls for all cases)."""
     from .props import c06
     rng = ctx.subrng("ia-c")
-    for _ in range(ctx.budget(100, 2000)):
+    cases = []
+    for k in range(ctx.budget(600, 6000)):
         mon = rng.choice(["offc", "onc"])
         allow = (DENSE_ON - {"since", "bsince"}) if mon == "onc" else DENSE_OFF
         g = DGen(rng, VARS, allow, max_bound=rng.choice([2, 4]))
-        f = g.formula(rng.choice([1, 2, 3]))
+        f = g.formula(rng.choice([0, 1, 1, 2, 3]))
         vs = F.variables(f) or ["x"]
         io = {v: rng.choice(["input", "output"]) for v in vs if rng.random() < 0.8}
         sem = rng.choice(list(c06.SEMS))
-        sig = gen_signals(rng, vs)
+        cases.append((mon, f, gen_signals(rng, vs), sem, io))
+    tfs = [F.from_proto(o[3:]) for o in common.driver_run(["ia | %s | %s | %s" % (sem, ",".join(v for v, t in io.items() if t == "input"),
+                                                                                   F.to_proto(f)) for _, f, _, sem, io in cases])]
+    doms = model_query([(f, sig, []) for _, f, sig, _, _ in cases])
+    pend = []
+    for (mon, f, sig, sem, io), tf, (_, dom, end) in zip(cases, tfs, doms):
+        if end is None:
+            end = max([s_[-1][0] for s_ in sig.values()] + [dom])
         ctx.evaluations += 1
         ctx.count("monitor:%s/%s" % (mon, sem))
-        v = check_ia(ctx, mon, f, sig, sem, io)
-        if v is None:
+        kw = dict(semantics=c06.SEMS[sem], io=io)
+        text, out = eval_offline(f, sig, **kw) if mon == "offc" else online_flat(f, sig, **kw)
+        rep = {"monitor": mon, "semantics": sem, "io": io, "spec": text, "formula": F.to_proto(f), "transformed": F.to_proto(tf),
+               "signals": sig_rep(sig), "impl": out}
+        if out[0] != "ok":
+            ctx.violations.append(Violation("dense %s monitor, %s semantics, io=%r raised %r: %s" % (mon, sem, io, out[1:], text), rep,
+                                            stream="ia-c"))
+            if len(ctx.violations) >= 3:
+                return
+            continue
+        a = samples_of(out[1])
+        if not a:
+            continue
+        lo, hi = (dom, end) if mon == "offc" else (a[0][0], a[-1][0])
+        qs = [q for q in query_times(sig, f, [t for t, _ in a], dom, end) if lo <= q <= hi]
+        pend.append((mon, sem, io, text, tf, sig, a, qs, rep))
+    allvals = model_query([(tf, sig, qs) for (_, _, _, _, tf, sig, _, qs, _) in pend])
+    for (mon, sem, io, text, tf, sig, a, qs, rep), (vals, _, _) in zip(pend, allvals):
+        bad = None
+        for q, mv in zip(qs, vals):
+            iv = step_value(a, q)
+            if mv is None or iv is None or mv != mv or iv != iv:
+                continue
+            if not common.num_eq(iv, mv):
+                rep["model_at"] = [[str(x), y] for x, y in zip(qs, vals)]
+                bad = Violation("dense %s monitor, %s semantics, io=%r: value at t=%s is %r; standard evaluation with the insensitive "
+                                "predicates replaced gives %r: %s" % (mon, sem, io, q, iv, mv, text), rep, stream="ia-c")
+                break
+        if bad is None:
             ctx.traces_validated += 1
+            ctx.nontrivial.add((mon, sem, text, str(rep["signals"]), str(io)))
         else:
-            ctx.violations.append(v)
+            ctx.violations.append(bad)
             if len(ctx.violations) >= 3:
                 return
 
